@@ -51,9 +51,9 @@ prop("C01", "exploration",
           "a run is non-trivial if at least one snapshot write was accepted and round-trip checked, and distinct if its "
           "plan digest is new and it reached an observation hash no earlier run reached")
 prop("C06", "exploration",
-     quick=[("tracks", "fast", 1400), ("mixed", "fast", 500)],
-     thorough=[("tracks", "fast", 60000), ("mixed", "fast", 30000), ("tracks", "san", 3000)],
-     relevant=["setter_ok"],
+     quick=[("tracks", "fast", 1400), ("mixed", "fast", 500), ("foreign", "fast", 700)],
+     thorough=[("tracks", "fast", 60000), ("mixed", "fast", 30000), ("tracks", "san", 3000), ("foreign", "fast", 40000)],
+     relevant=["setter_ok", "foreign_getter_snapshot_checked"],
      rule="seeded histories of the 25 field setters (incl. per-slot cue/loop setters) interleaved over several tracks; "
           "non-trivial = at least one setter accepted and differentially checked against the previous full observation; "
           "distinct = new plan digest reaching a new observation hash")
@@ -160,10 +160,11 @@ prop("C14", "fault_enumeration",
 
 prop("C15", "exploration",
      quick=[("hostile", "san", 700), ("hostile", "fast", 1200), ("tracks_twice", "fast", 500), ("mixed_twice", "fast", 300),
-            ("hostile_twice", "fast", 300)],
+            ("hostile_twice", "fast", 300), ("tableh", "san", 250), ("foreign", "san", 250)],
      thorough=[("hostile", "san", 30000), ("hostile", "fast", 60000), ("mixed", "san", 5000), ("tracks", "san", 5000),
-               ("tracks_twice", "fast", 30000), ("mixed_twice", "fast", 20000), ("hostile_twice", "fast", 20000), ("table_twice", "fast", 10000)],
-     relevant=["hostile_call_threw", "hostile_call_completed", "executed_twice"],
+               ("tracks_twice", "fast", 30000), ("mixed_twice", "fast", 20000), ("hostile_twice", "fast", 20000), ("table_twice", "fast", 10000),
+               ("tableh", "san", 8000), ("table", "san", 8000), ("foreign", "san", 8000)],
+     relevant=["hostile_call_threw", "hostile_call_completed", "executed_twice", "table_row_checked", "c04_preservation_checked"],
      rule="hostile-caller histories on all 18 schemas under ASan+UBSan+_GLIBCXX_ASSERTIONS: cue/loop indices -1..9 and extremes, "
           "0..12 cue/loop entries, labels 0..300 bytes incl. NUL and invalid UTF-8, waveform with sample rate/count absent or 0, ids that "
           "never existed or were removed, create_*_after with a crate from another parent/level/removed, odd names, every member of stale "
